@@ -38,7 +38,7 @@ def gap(ctx, name, maxlen):
     return ctx.str("gap_" + name, n, WS) if n else ""
 
 
-def render(ctx, spec, maxgap, allow_cdata, path="r"):
+def render(ctx, spec, maxgap, allow_cdata, path="r", parent_tag=None):
     """text of the tree under symbolic rendering choices: end tag of data elements present or not, CDATA wrapping,
     white space between tokens"""
     tag, data, kids = spec
@@ -55,11 +55,15 @@ def render(ctx, spec, maxgap, allow_cdata, path="r"):
             out = out + gap(ctx, path + "a", maxgap) + data + gap(ctx, path + "b", maxgap)
             if ctx.bool("end_" + path):
                 out = out + "</" + tag + ">" + gap(ctx, path + "t", maxgap)
+            elif parent_tag is not None:
+                # a data element that omits its end tag inside an aggregate of the same name is indistinguishable
+                # from a closed one followed by a missing parent end tag: not a rendering of *one* tree
+                ctx.assume(tag != parent_tag)
         return out
     out = out + gap(ctx, path + "i", maxgap)
     k = 0
     for ch in kids:
-        out = out + render(ctx, ch, maxgap, allow_cdata, path + str(k))
+        out = out + render(ctx, ch, maxgap, allow_cdata, path + str(k), tag)
         k += 1
     out = out + "</" + tag + ">" + gap(ctx, path + "t", maxgap)
     return out
